@@ -71,6 +71,7 @@ func (x *e2eRun) violation(sig, detail string, extra map[string]interface{}) {
 		w[k] = v
 	}
 	w["producer_log_tail"] = x.prod.n.Log.Tail(8)
+	x.st.count("violations.e2e."+sig, 1)
 	x.r.Violation(sig, detail+"\ncalls:\n"+strings.Join(x.lg.lines, "\n"), w)
 	x.bad = true
 }
@@ -78,7 +79,11 @@ func (x *e2eRun) violation(sig, detail string, extra map[string]interface{}) {
 // preexec pre-executes the call as its initiator; returns the unsigned material or a refusal.
 func (x *e2eRun) preexec(o *op, as string) (*sn.PreExecResult, *outcome) {
 	out := &outcome{}
-	res, err := x.prod.n.PreExec([]*protos.InvokeRequest{request(o)}, as, []string{as})
+	auth := o.auth()
+	if as != o.By {
+		auth = []string{as}
+	}
+	res, err := x.prod.n.PreExec([]*protos.InvokeRequest{request(o)}, as, auth)
 	if err != nil {
 		out.err, out.stage = err.Error(), "preexec"
 		return nil, out
@@ -94,10 +99,13 @@ func (x *e2eRun) preexec(o *op, as string) (*sn.PreExecResult, *outcome) {
 }
 
 func (x *e2eRun) build(o *op, res *sn.PreExecResult) (*pb.Transaction, error) {
-	key := sn.KeyByAddr(o.By)
+	var signers []*sn.Key
+	for _, a := range o.auth() {
+		signers = append(signers, sn.KeyByAddr(a))
+	}
 	x.nonce++
 	x.ts++
-	return sn.BuildTx(sn.TxSpec{Initiator: o.By, Signers: []*sn.Key{key}, InExt: res.Inputs, OutExt: res.Outputs,
+	return sn.BuildTx(sn.TxSpec{Initiator: o.By, Signers: signers, InExt: res.Inputs, OutExt: res.Outputs,
 		Requests: res.Requests, Nonce: fmt.Sprintf("c19-%d-%d", x.idx, x.nonce), Timestamp: x.ts})
 }
 
@@ -346,7 +354,7 @@ func runE2E(r *ev.Run, idx int, minOps, maxOps int) {
 				r.Inconclusive(fmt.Sprintf("e2e sequence %d: %s", idx, inc.Why))
 				return
 			}
-			r.Violation("govtoken|panic|"+cur.Kind, fmt.Sprintf("panic while executing %s: %v\n%s", cur, p, debug.Stack()), x.witness())
+			r.Violation(panicSig(cur), fmt.Sprintf("panic while executing %s: %v\n%s", cur, p, debug.Stack()), x.witness())
 		}
 	}()
 	cur = &op{Kind: "setup"}
@@ -362,7 +370,7 @@ func runE2E(r *ev.Run, idx int, minOps, maxOps int) {
 	}
 	defer x.rep.n.Drop()
 	x.pack(2) // tdpos calls need height >= 2
-	g := &genCtx{rng: rng, m: x.m, e2e: true}
+	g := &genCtx{rng: rng, m: x.m, e2e: true, profile: pickProfile(rng)}
 	nops := minOps + rng.Intn(maxOps-minOps+1)
 	limit := 1 + rng.Intn(5)
 	for i := 0; i < nops && !x.bad; i++ {
